@@ -53,6 +53,11 @@ def grid(tier):
                     for neg in (False, True):
                         yield {"d": d, "c": c, "r": r, "engine": "numpy" if (d or 0) % 2 else "normal", "wrap": None, "noise": None, "after": r == 3,
                                "dlm": dlm, "neg": neg}
+    for r in (19, 20, 21, 22, 23):           # around the sniffing window of 21 data lines
+        for d, c in ((3, 3), (2, 4), (5, 3), (None, 2)):
+            for engine in ("numpy", "normal"):
+                for noise in (None, "blank", "comment"):
+                    yield {"d": d, "c": c, "r": r, "engine": engine, "wrap": None, "noise": noise, "after": noise is not None}
     for c in (14, 21, 28, 35):
         for w in (7, 5, c):
             yield {"d": c, "c": c, "r": 3, "engine": "numpy", "wrap": w, "noise": None, "after": False}
@@ -64,7 +69,7 @@ def n_random(tier):
 
 def random_case(rng, tier):
     c = rng.choice([1, 2, 3, 5, 8, 13, 21, 34, 50])
-    r = rng.choice([1, 2, 4, 9, 20, 40])
+    r = rng.choice([1, 2, 4, 9, 19, 20, 21, 22, 23, 40])
     rel = rng.choice(["eq", "eq", "less", "more", "none"])
     d = {"eq": c, "less": max(0, c - rng.randint(1, 3)), "more": c + rng.randint(1, 3), "none": None}[rel]
     wrap = None
